@@ -532,6 +532,16 @@ impl<'a> From<bool> for DataOperator<'a> {
     }
 }
 
+/// Formats a float such that it is read as a float again (and not as an integer) in STAMQL
+fn float_to_string(n: f64) -> String {
+    let s = n.to_string();
+    if n.is_finite() && !s.contains('.') {
+        s + ".0"
+    } else {
+        s
+    }
+}
+
 impl<'a> DataOperator<'a> {
     /// Turns the DataOperator to a string, compatible with STAMQL
     pub fn to_string(&self) -> Result<String, StamError> {
@@ -558,15 +568,15 @@ impl<'a> DataOperator<'a> {
                 )),
             },
             DataOperator::EqualsInt(n) => Ok(format!("= {}", n)),
-            DataOperator::EqualsFloat(n) => Ok(format!("= {}", n)),
+            DataOperator::EqualsFloat(n) => Ok(format!("= {}", float_to_string(*n))),
             DataOperator::GreaterThan(n) => Ok(format!("> {}", n)),
             DataOperator::GreaterThanOrEqual(n) => Ok(format!(">= {}", n)),
             DataOperator::LessThan(n) => Ok(format!("< {}", n)),
             DataOperator::LessThanOrEqual(n) => Ok(format!("<= {}", n)),
-            DataOperator::GreaterThanFloat(n) => Ok(format!("> {}", n)),
-            DataOperator::GreaterThanOrEqualFloat(n) => Ok(format!(">= {}", n)),
-            DataOperator::LessThanOrEqualFloat(n) => Ok(format!("<= {}", n)),
-            DataOperator::LessThanFloat(n) => Ok(format!("< {}", n)),
+            DataOperator::GreaterThanFloat(n) => Ok(format!("> {}", float_to_string(*n))),
+            DataOperator::GreaterThanOrEqualFloat(n) => Ok(format!(">= {}", float_to_string(*n))),
+            DataOperator::LessThanOrEqualFloat(n) => Ok(format!("<= {}", float_to_string(*n))),
+            DataOperator::LessThanFloat(n) => Ok(format!("< {}", float_to_string(*n))),
             DataOperator::ExactDatetime(d) => Ok(format!("= {}", d.to_rfc3339())),
             DataOperator::AfterDatetime(d) => Ok(format!("> {}", d.to_rfc3339())),
             DataOperator::AtOrAfterDatetime(d) => Ok(format!(">= {}", d.to_rfc3339())),
